@@ -184,7 +184,10 @@ def callI (jk : Nat → Vec K) : Op K → Nat → Nat → St K → Res K
   | .comp a b, x, y, s =>
       if b.fn then
         -- elif self.right.is_functional: return self.left(self.right(x), out=out)
-        (callO jk b x s).bind fun rb s1 => callI jk a rb y s1
+        -- (the scalar is an immutable Python number: a new value, never `out` itself)
+        (callO jk b x s).bind fun rb s1 =>
+          let (t, s2) := alloc s1 (s1.mem rb)
+          callI jk a t y s2
       else
         -- tmp = right.range.element(); right(x, out=tmp); return left(tmp, out=out)
         let (t, s0) := alloc s (jk s.next)
@@ -307,6 +310,17 @@ def funcLeaf (f : Vec K → K) : Leaf K :=
   { sig := .oop, fn := true, raw := false, phi := fun x _ => f x,
     oop := fun x s => alloc s (fun _ => f (s.mem x)),
     ip := fun _ _ s => (.other, s) }
+
+/-- A leaf that obeys the call protocol but is deliberately NOT alias safe (legal: only
+wrappers and proximals promise anything for `out is x`): in-place only,
+`out[:] = 0; out.lincomb(1, out, c, x)` — it writes `out` before it has read `x`. Used to
+make sure that every wrapper hands a FRESH temporary, never `out` or `x`, to its operand. -/
+def accumLeaf (c : K) : Leaf K :=
+  { sig := .ip, fn := false, raw := false, phi := fun x i => 0 + c * x i,
+    oop := fun x s => (x, s),
+    ip := fun x y s =>
+      let s1 := s.write y (fun _ => 0)
+      (.none, s1.write y (fun i => s1.mem y i + c * s1.mem x i)) }
 
 /-- `MultiplyOperator(v, domain=field)._call`: `return x * multiplicand` |
 `out.lincomb(x, multiplicand)` for a scalar `x` (kept at index 0 of its buffer). -/
